@@ -23,6 +23,11 @@ What the code does today is modelled, not what it should do:
 * The sender sends the next block on every `result`, closes on `error`, and reports `NoError`
   the moment it has sent `<close/>`; responses are matched by the id of the last request.
 
+* Nothing in the in-band path has a timer: a request or response that vanishes (`lose`) leaves both jobs in
+  `TransferState` for ever.
+* A `<close/>` sent TO the sending client is answered with `<item-not-found/>` (`ibbCloseIqReceived` only looks for
+  incoming jobs) and does not touch the sending job.
+
 The file hash is a parameter `H`.  No proofs here.
 -/
 namespace Qx.C19
@@ -383,5 +388,22 @@ def sstep (H : List UInt8 → List UInt8) (r : Recv) : SOp → Recv
 def srun (H : List UInt8 → List UInt8) (r : Recv) : List SOp → Recv
   | [] => r
   | op :: ops => srun H (sstep H r op) ops
+
+/-! ### SOCKS5 sending job (QXmppTransferOutgoingJob with the bytestreams method): which outcome
+
+`byteStreamResultReceived`: a `<streamhost-used/>` naming our own JID is believed only if somebody really connected to
+our SOCKS server (`d->socksSocket`), one naming the proxy makes us connect there and ask for activation, anything else
+falls into the same "they did not connect" branch.  While streaming, `_q_disconnected` gives `ProtocolError` unless
+every byte of the announced size has been handed to the socket. -/
+
+inductive SHost
+  | ownConnected | ownNotConnected | unknown | proxyActivated | proxyRefused
+  deriving DecidableEq, Repr
+
+/-- `written` = bytes handed to the socket when the connection ended; `size ≠ 0` announced -/
+def ssendOutcome (host : SHost) (size written : Nat) : JError :=
+  match host with
+  | .ownNotConnected | .unknown | .proxyRefused => .protocol
+  | .ownConnected | .proxyActivated => if written = size then .none else .protocol
 
 end Qx.C19
